@@ -1839,6 +1839,12 @@ impl KyroDbService for KyroDBServiceImpl {
 
         let engine = &self.state.engine;
 
+        // Serialize with the tenant's quota check + insert: an upsert that saw "already exists"
+        // (no quota increment) must not interleave with a delete that decrements the count,
+        // otherwise the re-created document is live but uncounted.
+        let quota_lock = self.tenant_quota_lock(tenant.as_ref());
+        let _quota_guard = quota_lock.as_ref().map(|lock| lock.lock());
+
         let metadata = match engine.get_metadata(global_doc_id) {
             Some(m) => m,
             None => {
@@ -2459,6 +2465,11 @@ impl KyroDbService for KyroDBServiceImpl {
         let req = request.into_inner();
 
         let engine = &self.state.engine;
+
+        // Same serialization as single deletes: keep quota decrements ordered with the
+        // tenant's quota check + insert section.
+        let quota_lock = self.tenant_quota_lock(tenant.as_ref());
+        let _quota_guard = quota_lock.as_ref().map(|lock| lock.lock());
 
         let result = match req.delete_criteria {
             Some(batch_delete_request::DeleteCriteria::Ids(id_list)) => {
